@@ -52,6 +52,9 @@ func c07Stages() []c07StageInfo {
 		{s: &refmodel.LineFormat{T: refmodel.Template{{Fail: true}}}, mayFail: true},
 		{s: &refmodel.LineFormat{T: refmodel.Template{tv("missing"), tl("<"), tv("c"), tl(">")}}},
 		{s: &refmodel.LineFormat{T: refmodel.Template{tl("const")}}},
+		// write some text, then fail for the records that lack label b (state must not leak into the next record)
+		{s: &refmodel.LineFormat{T: refmodel.Template{tl("L"), tv("a"), tl(":"), {Div: "b"}}}, mayFail: true},
+		{s: lfmt(tpl("d", tl("D"), tv("c"), tl(":"), refmodel.TPart{Div: "b"}), tpl("e", tl("E"), tv("a"))), mayFail: true},
 		{s: &refmodel.Drop{Items: []refmodel.DKItem{dk("a")}}},
 		{s: &refmodel.Drop{Items: []refmodel.DKItem{dk("a"), dk("c"), dk("missing")}}},
 		{s: &refmodel.Drop{Items: []refmodel.DKItem{dm("c", "=", "x")}}},
